@@ -34,7 +34,9 @@ add(Contract(
         ("advance", "implies(result, P0 < state.pos and state.pos <= state.posMax)", ["C01", "C20"]),
         ("fail-pure", "implies(not result, state.pos == P0 and ntokens(state) == old(ntokens(state)) and state.pending == old(state.pending))", ["C01"]),
         ("silent-pure", "implies(silent, ntokens(state) == old(ntokens(state)) and state.pending == old(state.pending))", ["C01"]),
-        ("level", "state.level == old(state.level) and state.posMax == old(state.posMax) and state.linkLevel == old(state.linkLevel)", ["C01", "C02"]),
+        # linkLevel is NOT restored in general: raw <a> / </a> tags inside the label move it (html_inline), which is why the
+        # generic rule contract lists it under modifies
+        ("level", "state.level == old(state.level) and state.posMax == old(state.posMax)", ["C01", "C02"]),
         ("cache-inv", "forall(p, 0, len(state.src) + 1, implies(p in state.cache, state.cache[p] > p))", ["C20"]),
         IL.CACHE_MONO + (["C20"],),
         ("open-and-close", "implies(result and not silent, T[-1].type == 'link_close' and T[-1].nesting == -1 and T[-1].tag == 'a' and T[-1].level == old(state.level))", ["C02"]),
@@ -47,7 +49,7 @@ add(Contract(
          "or not implies(bound('pos') and bound('labelEnd') and labelEnd >= 0 and labelEnd + 1 < maximum, not (state.src[labelEnd + 1] == '(' and pos >= maximum))", ["C16"])],
     loops={k: {"types": {"ch": "char"}, "inv": [("pos", "labelEnd + 2 <= pos and labelEnd < maximum and maximum == state.posMax and maximum <= len(state.src)"),
                                                ("quiet", "state.pos == P0 and ntokens(state) == old(ntokens(state)) and state.pending == old(state.pending) and state.level == old(state.level) "
-                                                         "and state.posMax == old(state.posMax) and state.linkLevel == old(state.linkLevel)"),
+                                                         "and state.posMax == old(state.posMax)"),
                                                ("label", "P0 < labelEnd and state.src[labelEnd] == ']' and state.src[P0] == '[' and oldPos == P0 and labelStart == P0 + 1"),
                                                ("cache-inv", "forall(p, 0, len(state.src) + 1, implies(p in state.cache, state.cache[p] > p))"), IL.CACHE_MONO],
                "dec": "maximum - pos"} for k in (0, 1, 2)},
@@ -62,7 +64,7 @@ add(Contract(
         ("advance", "implies(result, P0 < state.pos and state.pos <= state.posMax)", ["C01", "C20"]),
         ("fail-pure", "implies(not result, state.pos == P0 and ntokens(state) == old(ntokens(state)) and state.pending == old(state.pending))", ["C01"]),
         ("silent-pure", "implies(silent, ntokens(state) == old(ntokens(state)) and state.pending == old(state.pending))", ["C01"]),
-        ("level", "state.level == old(state.level) and state.posMax == old(state.posMax) and state.linkLevel == old(state.linkLevel)", ["C01", "C02"]),
+        ("level", "state.level == old(state.level) and state.posMax == old(state.posMax)", ["C01", "C02"]),
         ("cache-inv", "forall(p, 0, len(state.src) + 1, implies(p in state.cache, state.cache[p] > p))", ["C20"]),
         IL.CACHE_MONO + (["C20"],),
         ("image-token", "implies(result and not silent, T[-1].type == 'image' and T[-1].nesting == 0 and T[-1].tag == 'img' and T[-1].level == old(state.level))", ["C02"]),
@@ -74,7 +76,7 @@ add(Contract(
          "or not implies(bound('ref'), ref) or not ('references' in state.env)", ["C16"])],
     loops={k: {"types": {"ch": "char"}, "inv": [("pos", "labelEnd + 2 <= pos and labelEnd < max and max == state.posMax and max <= len(state.src)"),
                                                ("quiet", "state.pos == P0 and ntokens(state) == old(ntokens(state)) and state.pending == old(state.pending) and state.level == old(state.level) "
-                                                         "and state.posMax == old(state.posMax) and state.linkLevel == old(state.linkLevel)"),
+                                                         "and state.posMax == old(state.posMax)"),
                                                ("label", "P0 + 1 < labelEnd and state.src[labelEnd] == ']' and state.src[P0] == '!' and state.src[P0 + 1] == '[' and oldPos == P0 and labelStart == P0 + 2"),
                                                ("cache-inv", "forall(p, 0, len(state.src) + 1, implies(p in state.cache, state.cache[p] > p))"), IL.CACHE_MONO],
                "dec": "max - pos"} for k in (0, 1, 2)},
